@@ -18,6 +18,8 @@ func c08Scenario(seed uint64) *core.Scenario {
 	p.PNatural = 8
 	p.PSelfRetract = 50
 	p.TemplatePct = 40
+	p.PMutator = 25
+	p.MutatorPool = 2
 	sc := gen.ScenarioFor("C08", seed, p)
 	sc.Sim = "H"
 	r := core.NewRand(core.Mix(seed, 0xc08))
